@@ -47,6 +47,7 @@ class StaleRule(FactRule):
         self.fields = set(fields)
         self.writers = field_writers(prog, self.fields)
         self.caches = {}     # decl -> (name, field)
+        self.cache_defs = {}  # local name -> member names in its defining expressions
         self.uses = 0
 
     def derived_from(self, rhs, ts):
@@ -78,6 +79,8 @@ class StaleRule(FactRule):
             for f in src:
                 ts = ts | frozenset([('cache', l.decl, f)])
                 self.caches[l.decl] = l.op
+                if op == '=' and rhs is not None:
+                    self.cache_defs.setdefault(l.op, set()).update(n.op for n in walk(rhs) if n.k == 'mem')
         return ts
 
     def check_uses(self, ctx, e, ts, what):
